@@ -7,5 +7,11 @@ META = {"explanation": "bounded functional: one concrete (small) shape per group
         "assumptions": ['functional clause: n <= 4', 'recursive triangular inversion: shape / window / header-balance contract only (layer S, all orders symbolic)']}
 
 
+def _carriers(tier):
+    # mzd_invert_naive cuts the inverse out of [A | I] with mzd_submatrix (unaligned column offset): its contract at offset classes 1,3
+    from checks import C08, carriers
+    return carriers.pick(C08.move_groups(tier), "K.mzd_submatrix.2x61-at-1,3", "K.mzd_submatrix.2x64-at-1,3", prop="C05")
+
+
 def groups(tier, seed):
-    return with_canaries(alg.c05(tier)) + with_canaries([g for g in layer_s.tri_groups(["C05", "C04", "C11"]) if g.function == "mzd_trtri_upper"]) + with_canaries([g for g in layer_s.front_groups(["C05", "C11"]) if g.function == "mzd_inv_m4ri"])
+    return with_canaries(alg.c05(tier)) + with_canaries([g for g in layer_s.tri_groups(["C05", "C04", "C11"]) if g.function == "mzd_trtri_upper"]) + with_canaries([g for g in layer_s.front_groups(["C05", "C11"]) if g.function == "mzd_inv_m4ri"]) + _carriers(tier)
